@@ -160,7 +160,7 @@ static void ro_fin(ro_ctx_t *c)
 /* documented failure value of each call: 1 when r is the failure value of op `name` */
 static int ro_is_failure(const char *name, long long r)
 {
-    static const char *neg[] = { "sb", "st", "sv", "so", "sS", "su", "tv", "tov", "tS", "rs", "jp", 0 };   /* int: 0 ok, else failure */
+    static const char *neg[] = { "sb", "st", "sv", "so", "sS", "su", "tv", "tov", "tS", "rs", "jp", "jr", 0 };   /* int: 0 ok, else failure */
     static const char *zero[] = { "ss", "ta", "to", "xv", "xo", "aS", "xu", "uf", "es", "et", "ev", "eo", "eS", "eu", "eb", "cb", "cs", "cS", "cv", "emb", "cln", 0 };
     int k;
     if (!strcmp(name, "pj")) return r < 0 || r >= 1000000;   /* init failed / printer error code set */
@@ -269,6 +269,14 @@ static int ro_op(ro_ctx_t *c, size_t i, char *tok)
         n = hx_decode(A(1), &d);
         buf = (char *)calloc(n + 16, 1); memcpy(buf, d, n);
         r = c14_schema_parse_json(B, &pc, buf, n, (flatcc_json_parser_flags_t)atoi(A(2)));
+        free(buf);
+    }
+    else if (IS("jr")) {
+        /* the same through <Table>_parse_json_as_root (flatcc_json_parser_table_as_root: temporary nesting limit) */
+        flatcc_json_parser_t pc; char *buf;
+        n = hx_decode(A(1), &d);
+        buf = (char *)calloc(n + 16, 1); memcpy(buf, d, n);
+        r = C14_Root_parse_json_as_root(B, &pc, buf, n, (flatcc_json_parser_flags_t)atoi(A(2)), "C14R");
         free(buf);
     }
     else if (IS("cln")) {
